@@ -25,7 +25,7 @@ RULE = ('(a) seeded 2-D integrator histories: chunks / predict / set_pva, initia
 ASSUMPTIONS = ['zero means == 0.0 (either sign of zero); altitude equality is bitwise']
 REQUIRED_OBS = ['coarse_initial_position_runs', 'twoD_rows_checked', 'set_pva_calls', 'predict_calls', 'filter_rows_checked', 'sd_tables_checked',
                 'measurement_rows_checked', 'feedback_runs', 'feedforward_runs']
-REQUIRED_CLASSES = {'all': ['history', 'feedback', 'feedforward']}
+REQUIRED_CLASSES = {'all': ['history', 'feedback', 'feedforward', 'measurement_history']}
 
 
 def setup():
@@ -44,7 +44,40 @@ def cases(seed, tier):
                         n_inc=20 + (i * 37) % 120, cost=1))
     for i in range(nf):
         out.append(dict(seed=int(seed) * 1000003 + 700000 + i, cls='feedback' if i % 2 == 0 else 'feedforward', cost=12))
+    nm = 40 if tier == 'quick' else 1500
+    for i in range(nm):
+        out.append(dict(seed=int(seed) * 1000003 + 900000 + i, cls='measurement_history', cost=1))
     return out
+
+
+def run_measurement_history(case):
+    """The same measurement objects used under 3-D and 2-D error models in random order: the vertical row is dropped in 2-D whatever came before."""
+    from pyins import measurements, sim
+    from pyins.error_model import InsErrorModel
+    rng = np.random.Generator(np.random.PCG64(case['seed']))
+    tt = np.arange(5) * 1.0
+    traj = schedules.truth_at(3.0 + tt)
+    traj.index = pd.Index(tt, name='time')
+    traj['alt'] += rng.uniform(-300, 300)
+    lever = [1.0, -0.5, 0.3]
+    objs = [measurements.Position(sim.generate_position_measurements(traj, 1.0, 1), 1.0), measurements.Position(sim.generate_position_measurements(traj, 1.0, 1), 1.0, lever),
+            measurements.NedVelocity(sim.generate_ned_velocity_measurements(traj, 0.3, 1), 0.3), measurements.NedVelocity(sim.generate_ned_velocity_measurements(traj, 0.3, 1), 0.3, lever)]
+    ems = {True: InsErrorModel(True), False: InsErrorModel(False)}
+    out = []
+    obs = {}
+    pv = traj.iloc[2].copy()
+    pv['alt'] += 499.0          # a large vertical separation: a vertical row that is not dropped is obvious
+    for step in range(16):
+        o = objs[int(rng.integers(0, len(objs)))]
+        wa = bool(rng.integers(0, 2))
+        z, H, R = o.compute_matrices(tt[2], pv, ems[wa])
+        obs['measurement_rows_checked'] = obs.get('measurement_rows_checked', 0) + 1
+        want = 3 if wa else 2
+        if len(np.asarray(z)) != want or np.asarray(H).shape != (want, ems[wa].n_states) or np.asarray(R).shape != (want, want):
+            out.append(vio('measurement_rows', f'{type(o).__name__} (used before under the other altitude mode) returned z{np.asarray(z).shape} H{np.asarray(H).shape} '
+                           f'R{np.asarray(R).shape} with with_altitude={wa} at step {step}, expected {want} rows'))
+            break
+    return dict(violations=out, obs=obs, nontrivial=True, sample=dict(cls='measurement_history', steps=16))
 
 
 def same(a, b):
@@ -53,6 +86,8 @@ def same(a, b):
 
 def run_case(case):
     H.OBS.clear()
+    if case['cls'] == 'measurement_history':
+        return run_measurement_history(case)
     if case['cls'] == 'history':
         out, sample = H.run_history(case, two_d_monitors=True)
         return dict(violations=out, obs=dict(H.OBS), nontrivial=True, sample=sample)
